@@ -10,7 +10,7 @@ RULE = ("cases = (row-length vector with >= 1 non-empty row, dtype, value patter
 ASSUMPTIONS = ["column sums compared exactly as Python numbers for |values| < 2**31 (patterns are reduced to that range), "
                "means within 4 ulp of float64 (float32 for float32 input)",
                "values only: the result dtype of sum(axis=0) is not part of the statement"]
-REQUIRED_FEATURES = ["empty_row", "rows_of_different_lengths", "bool_count", "get_column_values"]
+REQUIRED_FEATURES = ["empty_row", "rows_of_different_lengths", "bool_count", "get_column_values", "same_object_sequence"]
 BOUNDS = {"quick": "LV(4,3) with a non-empty row x {bool,int8,int64,uint8,uint64,float32,float64} x 2 patterns x "
                    "{sum(axis=0) method/function, mean(axis=0) method/function, col_counts, get_column_values(j) for every j}",
           "thorough": "LV(5,4), 3 patterns, plus int16/int32"}
@@ -39,6 +39,10 @@ def cases(shard, tier):
                 yield [lens, dt, k, op]
             for j in range(max(lens)):
                 yield [lens, dt, k, f"col{j}"]
+        if dt in ("int64", "float64"):
+            # the same object asked repeatedly, contiguous and as a selection nothing has read yet (a read materialises it on the way)
+            yield [lens, dt, 0, "seq_contig"]
+            yield [lens, dt, 0, "seq_view"]
 
 
 def check(case, acc):
@@ -60,6 +64,8 @@ def check(case, acc):
     ra = RaggedArray(flat.copy(), list(lens))
     if dt == "bool":
         acc.feature("bool_count")
+    if op.startswith("seq"):
+        return _check_seq(acc, case, flat, rows, cols, ra)
     if op.startswith("sum"):
         exp = ("A", (m,), tuple(pyval(sum(c)) if dt != "bool" else sum(1 for x in c if x) for c in cols))
         call = (lambda: ra.sum(axis=0)) if op == "sum_m" else (lambda: np.sum(ra, axis=0))
@@ -101,9 +107,43 @@ def check(case, acc):
             if isinstance(o, str) or abs(Fraction(o) - e) > tol * max(abs(e), abs(Fraction(o))):
                 acc.fail("wrong-column-mean", _show(exp), obs)
                 break
+    if op.startswith("col") and op[3:].isdigit():
+        # the column number spelled as numpy scalars (signed and unsigned)
+        for sp in (np.int64, np.uint8, np.int8, np.uint64):
+            o2 = attempt(lambda: (lambda a: ("A", tuple(a.shape), tuple(pyval(x) for x in a.ravel())))(np.asarray(ra.get_column_values(sp(j)))))
+            acc.trans()
+            if o2 != obs:
+                acc.fail("column-number-spelling-matters", (sp.__name__, obs), o2)
     post = attempt(lambda: [list(map(pyval, r)) for r in ra.tolist()])
     if post != [list(map(pyval, r)) for r in rows]:
         acc.fail("operand-modified", rows, post)
+
+
+def _check_seq(acc, case, flat, rows, cols, ra):
+    from npstructures import RaggedArray
+    lens, dt, k, op = case
+    acc.feature("same_object_sequence")
+    if op == "seq_view":
+        back = [[7]] + rows[::-1]
+        big = RaggedArray(np.array([v for r in back for v in r], dtype=dt), [len(r) for r in back])
+        ra = big[:0:-1]
+    m = len(cols)
+    colv = lambda j: ("A", (len(cols[j]),), tuple(pyval(x) for x in cols[j]))
+    sums = ("A", (m,), tuple(pyval(sum(c)) for c in cols))
+    counts = ("A", (m,), tuple(len(c) for c in cols))
+    steps = [(f"col{j}", lambda j=j: ra.get_column_values(j), colv(j)) for j in range(m)]
+    steps += [("sum0", lambda: ra.sum(axis=0), sums)]
+    steps += [(f"col{j} again", lambda j=j: ra.get_column_values(j), colv(j)) for j in range(m)]
+    steps += [("col_counts", lambda: ra.col_counts(), counts), ("tolist", lambda: np.array([len(r) for r in ra.tolist()]), ("A", (len(rows),), tuple(lens)))]
+    steps += [(f"col{j} after tolist", lambda j=j: ra.get_column_values(j), colv(j)) for j in range(m)]
+    steps += [("sum0 again", lambda: np.sum(ra, axis=0), sums)]
+    for name, f, exp in steps:
+        o = attempt(lambda: (lambda a: ("A", tuple(a.shape), tuple(pyval(x) for x in a.ravel())))(np.asarray(f())))
+        acc.trans()
+        acc.outcome((name, o))
+        if o != exp:
+            acc.fail("same-object-sequence:" + name.split()[0], (name, exp), o)
+            return
 
 
 def _show(exp):
